@@ -275,6 +275,10 @@ func (c *RetryClient) Client() *BaseClient {
 // The BaseClient must be unconnected when it is passed to the RetryClient.
 func (c *RetryClient) SetClient(ctx context.Context, cli *BaseClient) {
 	c.mu.Lock()
+	if c.cli != nil && c.cli != cli {
+		// QoS 2 messages received on the previous connection are released by PUBREL on this one.
+		cli.inheritInbound(c.cli)
+	}
 	c.cli = cli
 	c.chConnectErr = make(chan error, 1)
 	if c.chConnSwitch != nil {
